@@ -53,6 +53,16 @@ def generate(rng, tier):
                 if rng.random() < 0.3:
                     prods.append([v, [["v", rng.choice(vs)], ["v", rng.choice(vs)]]])
             spec = {"vars": [], "ters": [], "start": "S", "prods": prods, "as_list": False}
+        elif rng.random() < 0.2:
+            # (hidden) left recursion through a variable that is nullable only via other variables: FIRST of the
+            # recursive variable grows after it became nullable, whatever the order of the productions
+            n_eps = rng.random() < 0.8
+            prods = [["S", [["v", "X"], ["v", "A"]]], ["X", [["t", "a"]]],
+                     ["A", ([["v", "N"]] if rng.random() < 0.3 else []) + [["v", "A"], ["t", "b"]]],
+                     ["A", [["v", "N"]] + ([["v", "N"]] if rng.random() < 0.3 else [])],
+                     ["N", [["t", "c"]]]] + ([["N", []]] if n_eps else [])
+            rng.shuffle(prods)
+            spec = {"vars": [], "ters": [], "start": "S", "prods": prods, "as_list": rng.random() < 0.5}
         yield {"g": spec}
 
 
